@@ -455,3 +455,474 @@ Example hypotheses_satisfiable :
   fires 20 = true /\ fires 19 = false /\
   reachable_b (bafter binit 1000) = true /\ (1 <= 20 /\ 20 < 2 ^ 62).
 Proof. vm_compute. repeat split; auto; discriminate. Qed.
+
+(* ================= the registry: ONE long-lived Ticker, many messages ================= *)
+Lemma tick_rec_id : forall t r, m_id (tick_rec t r) = m_id r.
+Proof. intros t r. unfold tick_rec. destruct (stick (m_strat r)). reflexivity. Qed.
+Lemma tick_rec_done : forall t r, m_done (tick_rec t r) = m_done r.
+Proof. intros t r. unfold tick_rec. destruct (stick (m_strat r)). reflexivity. Qed.
+Lemma set_done_id : forall r, m_id (set_done r) = m_id r.
+Proof. reflexivity. Qed.
+
+Lemma upd_ids : forall m f ms, (forall r, m_id (f r) = m_id r) ->
+  map m_id (upd m f ms) = map m_id ms.
+Proof.
+  intros m f ms Hf. unfold upd. rewrite map_map. apply map_ext. intros r.
+  destruct (m_id r =? m); [apply Hf|reflexivity].
+Qed.
+
+Lemma filter_all : forall {A} (p : A -> bool) l, (forall x, In x l -> p x = true) -> filter p l = l.
+Proof.
+  intros A p l. induction l as [|a t IH]; intros H; [reflexivity|].
+  cbn [filter]. rewrite (H a (or_introl eq_refl)). f_equal. apply IH.
+  intros x Hx. apply H. right; exact Hx.
+Qed.
+
+Lemma NoDup_snoc : forall (l : list N) x, NoDup l -> ~ In x l -> NoDup (l ++ [x]).
+Proof.
+  induction l as [|a t IH]; intros x Hnd Hx; cbn [app].
+  - constructor; [intros []|constructor].
+  - inversion Hnd as [|a' t' Ha Ht]; subst. constructor.
+    + intros Hin. apply in_app_or in Hin. destruct Hin as [Hin|[->|[]]]; [exact (Ha Hin)|].
+      apply Hx. left; reflexivity.
+    + apply IH; [exact Ht|]. intros Hin. apply Hx. right; exact Hin.
+Qed.
+
+Lemma NoDup_snoc_inv : forall (l : list N) x, NoDup (l ++ [x]) -> NoDup l /\ ~ In x l.
+Proof.
+  intros l x H. apply NoDup_remove in H. rewrite app_nil_r in H. exact H.
+Qed.
+
+Lemma NoDup_map_filter : forall {A} (g : A -> N) (p : A -> bool) l,
+  NoDup (map g l) -> NoDup (map g (filter p l)).
+Proof.
+  intros A g p l. induction l as [|a t IH]; intros H; [constructor|].
+  cbn [map] in H. inversion H as [|x l' Ha Ht]; subst. cbn [filter].
+  destruct (p a); [|apply IH; exact Ht]. cbn [map]. constructor; [|apply IH; exact Ht].
+  intros Hin. apply Ha. apply in_map_iff in Hin. destruct Hin as [y [Hy Hin]].
+  apply filter_In in Hin. apply in_map_iff. exists y. split; [exact Hy|apply Hin].
+Qed.
+
+Lemma existsb_snd_false : forall (ks : list (N * N)) k,
+  ~ In k (map snd ks) -> existsb (fun p => snd p =? k) ks = false.
+Proof.
+  induction ks as [|a t IH]; intros k H; [reflexivity|].
+  cbn [existsb]. rewrite IH; [|intros Hin; apply H; right; exact Hin].
+  destruct (N.eqb_spec (snd a) k) as [E|E]; [|reflexivity].
+  exfalso. apply H. left. exact E.
+Qed.
+
+(* ticking through a duplicate-free handler table reaches each served message once *)
+Lemma fold_upd : forall (f : mrec -> mrec), (forall r, m_id (f r) = m_id r) ->
+  forall (ks : list (N * N)) ms, NoDup (map snd ks) ->
+  fold_left (fun ms p => upd (snd p) f ms) ks ms =
+  map (fun r => if existsb (fun p => snd p =? m_id r) ks then f r else r) ms.
+Proof.
+  intros f Hf. induction ks as [|[id k] ks IH]; intros ms Hnd.
+  - cbn. rewrite map_id. reflexivity.
+  - cbn [map snd] in Hnd. inversion Hnd as [|x l Hnin Hnd']; subst.
+    cbn [fold_left]. rewrite IH by exact Hnd'. unfold upd. rewrite map_map.
+    apply map_ext. intros r. cbn [existsb snd].
+    destruct (N.eqb_spec (m_id r) k) as [E|E].
+    + rewrite Hf. rewrite E. rewrite (existsb_snd_false ks k Hnin). rewrite N.eqb_refl.
+      reflexivity.
+    + destruct (N.eqb_spec k (m_id r)) as [E'|E']; [congruence|]. reflexivity.
+Qed.
+
+Lemma is_done_absent : forall ms m, ~ In m (map m_id ms) -> is_done ms m = false.
+Proof.
+  induction ms as [|a t IH]; intros m H; [reflexivity|].
+  unfold is_done in *. cbn [existsb]. rewrite IH; [|intros Hin; apply H; right; exact Hin].
+  destruct (N.eqb_spec (m_id a) m) as [E|E]; [|reflexivity].
+  exfalso. apply H. left. exact E.
+Qed.
+
+Lemma is_done_unique : forall ms r, NoDup (map m_id ms) -> In r ms ->
+  is_done ms (m_id r) = m_done r.
+Proof.
+  induction ms as [|a t IH]; intros r Hnd Hin; [destruct Hin|].
+  cbn [map] in Hnd. inversion Hnd as [|x l Ha Ht]; subst.
+  unfold is_done. cbn [existsb]. fold (is_done t (m_id r)).
+  destruct Hin as [->|Hin].
+  - rewrite N.eqb_refl. cbn [andb]. rewrite (is_done_absent t (m_id r) Ha).
+    apply orb_false_r.
+  - destruct (N.eqb_spec (m_id a) (m_id r)) as [E|E].
+    + exfalso. apply Ha. rewrite E. apply in_map. exact Hin.
+    + cbn [andb orb]. apply IH; assumption.
+Qed.
+
+Definition RInv (h : list rop) (st : reg) : Prop :=
+  next_id st = N.of_nat (length (scheduled h)) /\
+  Forall (fun p => fst p <= next_id st) (handlers st) /\
+  NoDup (map snd (handlers st)) /\
+  incl (map snd (handlers st)) (map m_id (msgs st)) /\
+  (forall r, In r (msgs st) -> m_done r = false -> In (m_id r) (map snd (handlers st))) /\
+  map m_id (msgs st) = scheduled h.
+
+Lemma scheduled_app : forall a b, scheduled (a ++ b) = scheduled a ++ scheduled b.
+Proof. intros. unfold scheduled. apply flat_map_app. Qed.
+
+Lemma rrun_snoc : forall h o, rrun (h ++ [o]) = rstep (rrun h) o.
+Proof. intros. unfold rrun. rewrite fold_left_app. reflexivity. Qed.
+Lemma frun_snoc : forall h o, frun (h ++ [o]) = fstep (frun h) o.
+Proof. intros. unfold frun, frun_from. rewrite fold_left_app. reflexivity. Qed.
+
+(* the handler table (ids from the monotonic counter, lazy deletion) implements the
+   table-free reference: handler ids are never reused, so a registration never overwrites a
+   live handler, and every live message has exactly one handler *)
+Lemma registry_refines : forall h,
+  NoDup (scheduled h) -> N.of_nat (length (scheduled h)) < w64 ->
+  RInv h (rrun h) /\ (msgs (rrun h), tickno (rrun h)) = frun h.
+Proof.
+  induction h as [|o h IH] using rev_ind; intros Hnd Hb.
+  - split; [|reflexivity]. unfold RInv. cbn. repeat split; try constructor.
+    + intros x [].
+    + intros r [].
+  - rewrite scheduled_app in Hnd, Hb. rewrite rrun_snoc, frun_snoc.
+    destruct o as [m s|m|].
+    + (* registration *)
+      cbn [scheduled flat_map app] in Hnd, Hb. rewrite app_length in Hb. cbn [length] in Hb.
+      apply NoDup_snoc_inv in Hnd. destruct Hnd as [Hnd Hm].
+      destruct (IH Hnd ltac:(lia)) as [[I1 [I2 [I3 [I4 [I5 I6]]]]] E]. rewrite <- E.
+      set (st := rrun h) in *.
+      assert (Hid : (next_id st + 1) mod w64 = next_id st + 1) by (apply N.mod_small; lia).
+      assert (Hset : map_set (next_id st + 1) m (handlers st) = handlers st ++ [(next_id st + 1, m)]).
+      { unfold map_set. f_equal. apply filter_all. intros p Hp.
+        rewrite Forall_forall in I2. specialize (I2 p Hp).
+        destruct (N.eqb_spec (fst p) (next_id st + 1)); [lia|reflexivity]. }
+      split; [|reflexivity].
+      unfold RInv. cbn [rstep handlers next_id msgs tickno]. rewrite Hid, Hset.
+      rewrite scheduled_app. cbn [scheduled flat_map app]. rewrite app_length. cbn [length].
+      rewrite !map_app. cbn [map snd m_id new_rec].
+      split; [lia|]. split.
+      { apply Forall_app. split.
+        - eapply Forall_impl; [|exact I2]. cbn. intros; lia.
+        - constructor; [cbn; lia|constructor]. }
+      split.
+      { apply NoDup_snoc; [exact I3|]. intros Hin. apply Hm. rewrite <- I6. apply I4. exact Hin. }
+      split.
+      { apply incl_app; [apply incl_appl; exact I4|apply incl_appr; apply incl_refl]. }
+      split.
+      { intros r Hr Hd. apply in_or_app. apply in_app_or in Hr. destruct Hr as [Hr|[<-|[]]].
+        - left. apply I5; assumption.
+        - right. left. reflexivity. }
+      rewrite I6. reflexivity.
+    + (* cancellation *)
+      cbn [scheduled flat_map app] in Hnd, Hb. rewrite app_nil_r in Hnd, Hb.
+      destruct (IH Hnd Hb) as [[I1 [I2 [I3 [I4 [I5 I6]]]]] E]. rewrite <- E.
+      split; [|reflexivity].
+      unfold RInv. cbn [rstep handlers next_id msgs tickno].
+      rewrite scheduled_app. cbn [scheduled flat_map app]. rewrite app_nil_r.
+      rewrite (upd_ids m set_done _ set_done_id).
+      repeat split; try assumption.
+      intros r Hr Hd. unfold upd in Hr. apply in_map_iff in Hr. destruct Hr as [r0 [Hr0 Hin]].
+      destruct (m_id r0 =? m).
+      * subst r. discriminate.
+      * subst r. apply I5; assumption.
+    + (* tick *)
+      cbn [scheduled flat_map app] in Hnd, Hb. rewrite app_nil_r in Hnd, Hb.
+      destruct (IH Hnd Hb) as [[I1 [I2 [I3 [I4 [I5 I6]]]]] E]. rewrite <- E.
+      set (st := rrun h) in *.
+      set (keep := filter (fun p => negb (is_done (msgs st) (snd p))) (handlers st)).
+      assert (Hids : NoDup (map m_id (msgs st))) by (rewrite I6; exact Hnd).
+      assert (Hk3 : NoDup (map snd keep)) by (apply NoDup_map_filter; exact I3).
+      assert (Hmsgs : fold_left (fun ms p => upd (snd p) (tick_rec (tickno st + 1)) ms) keep (msgs st) =
+                      map (fun r => if m_done r then r else tick_rec (tickno st + 1) r) (msgs st)).
+      { rewrite (fold_upd _ (tick_rec_id (tickno st + 1)) keep (msgs st) Hk3).
+        apply map_ext_in. intros r Hr.
+        pose proof (is_done_unique (msgs st) r Hids Hr) as Hu.
+        destruct (m_done r) eqn:Hd.
+        - destruct (existsb (fun p => snd p =? m_id r) keep) eqn:Ex; [|reflexivity].
+          apply existsb_exists in Ex. destruct Ex as [p [Hp Hpe]].
+          apply filter_In in Hp. destruct Hp as [_ Hp]. apply N.eqb_eq in Hpe.
+          rewrite Hpe, Hu in Hp. discriminate.
+        - replace (existsb (fun p => snd p =? m_id r) keep) with true; [reflexivity|].
+          symmetry. apply existsb_exists.
+          specialize (I5 r Hr Hd). apply in_map_iff in I5. destruct I5 as [p [Hpe Hp]].
+          exists p. split; [|apply N.eqb_eq; exact Hpe].
+          apply filter_In. split; [exact Hp|]. rewrite Hpe, Hu. reflexivity. }
+      split.
+      2:{ cbn [rstep handlers next_id msgs tickno fstep]. fold keep. rewrite Hmsgs. reflexivity. }
+      unfold RInv. cbn [rstep handlers next_id msgs tickno]. fold keep. rewrite Hmsgs.
+      rewrite scheduled_app. cbn [scheduled flat_map app]. rewrite app_nil_r.
+      assert (Hmid : map m_id (map (fun r => if m_done r then r else tick_rec (tickno st + 1) r) (msgs st))
+                     = map m_id (msgs st)).
+      { rewrite map_map. apply map_ext. intros r. destruct (m_done r); [reflexivity|apply tick_rec_id]. }
+      rewrite Hmid.
+      split; [exact I1|]. split.
+      { apply Forall_forall. intros p Hp. apply filter_In in Hp.
+        rewrite Forall_forall in I2. apply I2. apply Hp. }
+      split; [exact Hk3|]. split.
+      { intros x Hx. apply I4. apply in_map_iff in Hx. destruct Hx as [p [Hpe Hp]].
+        apply filter_In in Hp. apply in_map_iff. exists p. split; [exact Hpe|apply Hp]. }
+      split; [|exact I6].
+      intros r Hr Hd. apply in_map_iff in Hr. destruct Hr as [r0 [Hr0 Hin]].
+      assert (m_done r0 = false /\ m_id r = m_id r0) as [Hd0 Hi0].
+      { destruct (m_done r0) eqn:D0; subst r.
+        - rewrite D0 in Hd. discriminate.
+        - split; [reflexivity|apply tick_rec_id]. }
+      rewrite Hi0. pose proof (I5 r0 Hin Hd0) as H5.
+      apply in_map_iff in H5. destruct H5 as [p [Hpe Hp]].
+      apply in_map_iff. exists p. split; [exact Hpe|].
+      apply filter_In. split; [exact Hp|].
+      rewrite Hpe, (is_done_unique (msgs st) r0 Hids Hin), Hd0. reflexivity.
+Qed.
+
+(* ---- in the reference, a message's record depends only on what the history says about it ---- *)
+Definition proj (m : N) (ms : list mrec) : list mrec := filter (fun r => m_id r =? m) ms.
+
+Lemma proj_map : forall m g ms, (forall r, m_id (g r) = m_id r) ->
+  proj m (map g ms) = map g (proj m ms).
+Proof.
+  intros m g ms Hg. induction ms as [|a t IH]; [reflexivity|].
+  cbn [map proj filter]. rewrite Hg. fold (proj m (map g t)). fold (proj m t). rewrite IH.
+  destruct (m_id a =? m); reflexivity.
+Qed.
+
+Lemma proj_upd_other : forall m m' f ms, m' <> m -> (forall r, m_id (f r) = m_id r) ->
+  proj m (upd m' f ms) = proj m ms.
+Proof.
+  intros m m' f ms Hne Hf. induction ms as [|a t IH]; [reflexivity|].
+  unfold upd in *. cbn [map proj filter]. fold (proj m (map (fun r => if m_id r =? m' then f r else r) t)).
+  fold (proj m t). rewrite IH.
+  destruct (N.eqb_spec (m_id a) m') as [E|E].
+  - rewrite Hf. destruct (N.eqb_spec (m_id a) m); [congruence|reflexivity].
+  - reflexivity.
+Qed.
+
+Lemma proj_upd_same : forall m f ms, (forall r, m_id (f r) = m_id r) ->
+  proj m (upd m f ms) = upd m f (proj m ms).
+Proof.
+  intros m f ms Hf. unfold upd. apply proj_map. intros r.
+  destruct (m_id r =? m); [apply Hf|reflexivity].
+Qed.
+
+Lemma frun_from_cons : forall st o h, frun_from st (o :: h) = frun_from (fstep st o) h.
+Proof. reflexivity. Qed.
+
+Lemma fstep_proj : forall m o ms t,
+  fstep (proj m ms, t) (if about m o then o else RCancel m) =
+  (proj m (fst (fstep (ms, t) o)), snd (fstep (ms, t) o)) \/
+  (about m o = false /\ proj m (fst (fstep (ms, t) o)) = proj m ms /\ snd (fstep (ms, t) o) = t).
+Proof.
+  intros m o ms t. destruct o as [m' s|m'|]; cbn [about fstep fst snd].
+  - destruct (N.eqb_spec m' m) as [E|E].
+    + left. subst m'. unfold proj. rewrite filter_app. cbn [filter new_rec m_id].
+      rewrite N.eqb_refl. reflexivity.
+    + right. split; [reflexivity|]. split; [|reflexivity].
+      unfold proj. rewrite filter_app. cbn [filter new_rec m_id].
+      destruct (N.eqb_spec m' m); [congruence|]. apply app_nil_r.
+  - destruct (N.eqb_spec m' m) as [E|E].
+    + left. subst m'. rewrite (proj_upd_same m set_done ms set_done_id). reflexivity.
+    + right. split; [reflexivity|]. split; [|reflexivity].
+      apply (proj_upd_other m m' set_done ms E set_done_id).
+  - left. rewrite proj_map; [reflexivity|].
+    intros r. destruct (m_done r); [reflexivity|apply tick_rec_id].
+Qed.
+
+Lemma flat_projection : forall m h ms t,
+  proj m (fst (frun_from (ms, t) h)) = fst (frun_from (proj m ms, t) (only m h)) /\
+  snd (frun_from (ms, t) h) = snd (frun_from (proj m ms, t) (only m h)).
+Proof.
+  intros m. induction h as [|o h IH]; intros ms t; [split; reflexivity|].
+  rewrite frun_from_cons. unfold only. cbn [filter]. fold (only m h).
+  destruct (fstep_proj m o ms t) as [E|[Ea [E1 E2]]].
+  - destruct (about m o) eqn:Ea.
+    + rewrite frun_from_cons, E. destruct (fstep (ms, t) o) as [ms' t']. apply IH.
+    + (* a foreign op that changes nothing about m behaves like the no-op it is *)
+      destruct o as [m' s|m'|]; cbn [about] in Ea; try discriminate.
+      * destruct (fstep (ms, t) (RSchedule m' s)) as [ms' t'] eqn:Es. cbn [fstep] in Es.
+        inversion Es; subst ms' t'. destruct (IH (ms ++ [new_rec m' s]) t) as [A B].
+        rewrite A, B. unfold proj at 1 3. rewrite filter_app. cbn [filter new_rec m_id].
+        rewrite Ea, app_nil_r. split; reflexivity.
+      * destruct (IH (upd m' set_done ms) t) as [A B]. cbn [fstep]. rewrite A, B.
+        assert (m' <> m) by (intros ->; rewrite N.eqb_refl in Ea; discriminate).
+        rewrite (proj_upd_other m m' set_done ms H set_done_id). split; reflexivity.
+  - rewrite Ea. destruct (fstep (ms, t) o) as [ms' t']. cbn [fst snd] in E1, E2. subst t'.
+    destruct (IH ms' t) as [A B]. rewrite A, B, E1. split; reflexivity.
+Qed.
+
+Definition own_op (m : N) (o : rop) : Prop := o = RTick \/ o = RCancel m.
+
+Lemma only_own : forall m h, ~ In m (scheduled h) -> Forall (own_op m) (only m h).
+Proof.
+  intros m. induction h as [|o h IH]; intros H; [constructor|].
+  unfold only. cbn [filter]. fold (only m h).
+  destruct o as [m' s|m'|]; cbn [about].
+  - cbn [scheduled flat_map app] in H. destruct (N.eqb_spec m' m) as [E|E].
+    + exfalso. apply H. left. exact E.
+    + apply IH. intros Hin. apply H. right. exact Hin.
+  - cbn [scheduled flat_map app] in H. destruct (N.eqb_spec m' m) as [E|E].
+    + constructor; [right; subst; reflexivity|apply IH; exact H].
+    + apply IH; exact H.
+  - constructor; [left; reflexivity|apply IH; exact H].
+Qed.
+
+Lemma only_ticks : forall m h, ticks_in (only m h) = ticks_in h.
+Proof.
+  intros m. induction h as [|o h IH]; [reflexivity|].
+  unfold only. cbn [filter]. fold (only m h).
+  destruct o as [m' s|m'|]; cbn [about ticks_in].
+  - destruct (m' =? m); cbn [ticks_in]; exact IH.
+  - destruct (m' =? m); cbn [ticks_in]; exact IH.
+  - rewrite IH. reflexivity.
+Qed.
+
+Lemma only_live_len : forall m h, live_len m (only m h) = live_len m h.
+Proof.
+  intros m. induction h as [|o h IH]; [reflexivity|].
+  unfold only. cbn [filter]. fold (only m h).
+  destruct o as [m' s|m'|]; cbn [about live_len].
+  - destruct (m' =? m); cbn [live_len]; exact IH.
+  - destruct (N.eqb_spec m' m) as [E|E]; cbn [live_len].
+    + subst. rewrite N.eqb_refl. reflexivity.
+    + exact IH.
+  - rewrite IH. reflexivity.
+Qed.
+
+Lemma empty_run : forall m l t, Forall (own_op m) l -> frun_from ([], t) l = ([], t + ticks_in l).
+Proof.
+  intros m. induction l as [|o l IH]; intros t H.
+  - cbn. f_equal. lia.
+  - inversion H as [|o' l' Ho Hl]; subst. rewrite frun_from_cons.
+    destruct Ho as [->| ->]; cbn [fstep upd map ticks_in]; rewrite IH by exact Hl; f_equal; lia.
+Qed.
+
+(* one message alone: its log grows by its own schedule, counted in global tick numbers,
+   until its own cancellation *)
+Lemma solo_run : forall m post r t, Forall (own_op m) post -> m_id r = m ->
+  exists r', frun_from ([r], t) post = ([r'], t + ticks_in post) /\ m_id r' = m /\
+    rev (m_rlog r') = rev (m_rlog r) ++
+      (if m_done r then [] else fst (fire_positions (m_strat r) (live_len m post) (t + 1))).
+Proof.
+  intros m. induction post as [|o post IH]; intros r t H Hid.
+  - exists r. cbn [frun_from fold_left ticks_in live_len fire_positions fst].
+    split; [f_equal; lia|]. split; [exact Hid|]. destruct (m_done r); rewrite app_nil_r; reflexivity.
+  - inversion H as [|o' l' Ho Hl]; subst o' l'. rewrite frun_from_cons.
+    destruct Ho as [->| ->]; cbn [fstep map upd ticks_in live_len].
+    + destruct (m_done r) eqn:Hd.
+      * destruct (IH r (t + 1) Hl Hid) as [r' [E [Hi Hlog]]]. exists r'.
+        rewrite E, Hd in *. split; [f_equal; lia|]. split; assumption.
+      * destruct (IH (tick_rec (t + 1) r) (t + 1) Hl) as [r' [E [Hi Hlog]]].
+        { rewrite tick_rec_id. exact Hid. }
+        exists r'. rewrite E. split; [f_equal; lia|]. split; [exact Hi|].
+        rewrite Hlog, tick_rec_done, Hd. unfold tick_rec. cbn [fire_positions].
+        destruct (stick (m_strat r)) as [s' f]. cbn [m_rlog m_strat].
+        destruct (fire_positions s' (live_len m post) (t + 1 + 1)) as [l s'']. cbn [fst].
+        destruct f; cbn [rev]; [rewrite <- app_assoc|]; reflexivity.
+    + rewrite Hid, N.eqb_refl.
+      destruct (IH (set_done r) t Hl) as [r' [E [Hi Hlog]]]; [exact Hid|].
+      exists r'. rewrite E. split; [reflexivity|]. split; [exact Hi|].
+      rewrite Hlog. cbn [set_done m_rlog m_done]. destruct (m_done r); reflexivity.
+Qed.
+
+Lemma find_proj : forall m ms,
+  find (fun r => m_id r =? m) ms = hd_error (proj m ms).
+Proof.
+  intros m. induction ms as [|a t IH]; [reflexivity|].
+  cbn [find proj filter]. destruct (m_id a =? m); [reflexivity|exact IH].
+Qed.
+
+Lemma positions_shift : forall k s p a,
+  fst (fire_positions s k (a + p)) = map (N.add a) (fst (fire_positions s k p)).
+Proof.
+  induction k as [|k IH]; intros s p a; [reflexivity|].
+  cbn [fire_positions]. destruct (stick s) as [s' f].
+  specialize (IH s' (p + 1) a). replace (a + (p + 1)) with (a + p + 1) in IH by lia.
+  destruct (fire_positions s' k (a + p + 1)) as [l1 s1].
+  destruct (fire_positions s' k (p + 1)) as [l2 s2]. cbn [fst] in *.
+  destruct f; cbn [map]; rewrite IH; reflexivity.
+Qed.
+
+(* THE registry theorem: on one shared long-lived ticker, whatever else is registered,
+   cancelled or re-registered around it, the message registered by [RSchedule m s] is
+   retransmitted exactly at the positions of its OWN schedule counted from its OWN
+   registration, up to its OWN cancellation *)
+Theorem registry_exact : forall pre m s post,
+  NoDup (scheduled (pre ++ RSchedule m s :: post)) ->
+  N.of_nat (length (scheduled (pre ++ RSchedule m s :: post))) < w64 ->
+  log_of (msgs (rrun (pre ++ RSchedule m s :: post))) m =
+  Some (map (N.add (ticks_in pre)) (fst (fire_positions s (live_len m post) 1))).
+Proof.
+  intros pre m s post Hnd Hb.
+  destruct (registry_refines _ Hnd Hb) as [_ E].
+  assert (Hm : msgs (rrun (pre ++ RSchedule m s :: post)) = fst (frun (pre ++ RSchedule m s :: post)))
+    by (rewrite <- E; reflexivity).
+  rewrite Hm. unfold log_of. rewrite find_proj. unfold frun.
+  destruct (flat_projection m (pre ++ RSchedule m s :: post) [] 0) as [P _]. rewrite P.
+  cbn [proj filter].
+  rewrite scheduled_app in Hnd. cbn [scheduled flat_map app] in Hnd.
+  apply NoDup_remove_2 in Hnd.
+  assert (Hpre : ~ In m (scheduled pre)) by (intros H; apply Hnd; apply in_or_app; left; exact H).
+  assert (Hpost : ~ In m (scheduled post)) by (intros H; apply Hnd; apply in_or_app; right; exact H).
+  unfold only. rewrite filter_app. cbn [filter about]. rewrite N.eqb_refl.
+  fold (only m pre). fold (only m post).
+  unfold frun_from. rewrite fold_left_app. fold (frun_from ([], 0) (only m pre)).
+  rewrite (empty_run m _ 0 (only_own m pre Hpre)). cbn [fold_left fstep app].
+  fold (frun_from ([new_rec m s], 0 + ticks_in (only m pre)) (only m post)).
+  destruct (solo_run m (only m post) (new_rec m s) (0 + ticks_in (only m pre))
+              (only_own m post Hpost) eq_refl) as [r' [Er [_ Hlog]]].
+  rewrite Er. cbn [fst hd_error]. rewrite Hlog. cbn [new_rec m_rlog m_done m_strat rev app].
+  rewrite only_live_len, only_ticks. rewrite N.add_0_l.
+  rewrite positions_shift. reflexivity.
+Qed.
+
+Lemma seq1_of_nat : forall k, map N.of_nat (seq 1 k) = map (fun i => 1 + N.of_nat i) (seq 0 k).
+Proof.
+  intros k. rewrite <- seq_shift, map_map. apply map_ext. intros; lia.
+Qed.
+
+(* ... in closed form: standard = every tick; backoff = own ticks 1, 3, 6, 11, 20, ... *)
+Theorem registry_closed_form : forall pre m s post sel,
+  NoDup (scheduled (pre ++ RSchedule m s :: post)) ->
+  N.of_nat (length (scheduled (pre ++ RSchedule m s :: post))) < w64 ->
+  sel_of s = Some sel ->
+  (match s with Std => 0 | Back b => tc b end) + N.of_nat (live_len m post) < 2 ^ 62 ->
+  log_of (msgs (rrun (pre ++ RSchedule m s :: post))) m = Some (expected_log sel pre post m).
+Proof.
+  intros pre m s post sel Hnd Hb Hs Ht. rewrite (registry_exact pre m s post Hnd Hb).
+  unfold expected_log. f_equal. f_equal.
+  destruct s as [|b]; cbn [sel_of] in Hs.
+  - inversion Hs; subst sel. rewrite positions_std, seq1_of_nat.
+    rewrite filter_all by reflexivity. reflexivity.
+  - destruct (reachable_b b) eqn:Hr; [|discriminate]. inversion Hs; subst sel.
+    apply positions_closed_form; assumption.
+Qed.
+
+(* soundness of the executable form: an accepted observation gives every registered message
+   exactly its closed-form log *)
+Lemma reg_spec_sound : forall h pre0 logs, reg_spec pre0 h logs = true ->
+  forall pre m s post, h = pre ++ RSchedule m s :: post ->
+  exists l, In (m, l) logs /\
+    forall sel, sel_of s = Some sel -> l = expected_log sel (pre0 ++ pre) post m.
+Proof.
+  induction h as [|o h IH]; intros pre0 logs H pre m s post Eh.
+  - destruct pre; discriminate.
+  - destruct pre as [|o' pre].
+    + cbn [app] in Eh. inversion Eh; subst o h. cbn [reg_spec] in H.
+      destruct logs as [|[m' l] logs']; [discriminate|].
+      apply andb_prop in H. destruct H as [H _]. apply andb_prop in H. destruct H as [H1 H2].
+      apply N.eqb_eq in H1. subst m'. exists l. split; [left; reflexivity|].
+      intros sel Hs. rewrite Hs in H2. rewrite app_nil_r. apply list_eqb_eq. exact H2.
+    + cbn [app] in Eh. inversion Eh; subst o' h.
+      assert (G : forall logs', reg_spec (pre0 ++ [o]) (pre ++ RSchedule m s :: post) logs' = true ->
+                exists l, In (m, l) logs' /\
+                  forall sel, sel_of s = Some sel -> l = expected_log sel (pre0 ++ o :: pre) post m).
+      { intros logs' H'. destruct (IH _ _ H' pre m s post eq_refl) as [l [Hin Hl]].
+        exists l. split; [exact Hin|]. intros sel Hs. rewrite (Hl sel Hs).
+        rewrite <- app_assoc. reflexivity. }
+      destruct o as [m0 s0|m0|]; cbn [reg_spec] in H.
+      * destruct logs as [|[m' l'] logs']; [discriminate|].
+        apply andb_prop in H. destruct H as [_ H].
+        destruct (G logs' H) as [l [Hin Hl]]. exists l. split; [right; exact Hin|exact Hl].
+      * exact (G logs H).
+      * exact (G logs H).
+Qed.
+
+(* the seeded-style scenario: an earlier message ends, a tick passes, a new one is registered
+   while a later-registered one is live — every log is still exact *)
+Example registry_churn_example :
+  reg_logs (rrun [RSchedule 0 Std; RSchedule 1 (Back binit); RTick; RTick; RCancel 0; RTick;
+                  RSchedule 2 Std; RTick; RTick; RTick; RCancel 1; RTick]) =
+  [(0, [1; 2]); (1, [1; 3; 6]); (2, [4; 5; 6; 7])].
+Proof. vm_compute. reflexivity. Qed.
